@@ -272,7 +272,8 @@ func runC10(t *testing.T, seed int64, n int, out *Out) {
 				price := std.Prices["ATOM"]
 				pos, tp := perptypes.Position_LONG, price.Mul(D([]string{"1.1", "1.5", "3"}[r.Intn(3)]))
 				if !long {
-					pos, tp = perptypes.Position_SHORT, price.Mul(D([]string{"0.5", "0.8", "0.95"}[r.Intn(3)]))
+					// a short may also be opened with NO take profit (0): nobody can then close it through the take-profit list
+					pos, tp = perptypes.Position_SHORT, price.Mul(D([]string{"0.5", "0.8", "0.95", "0"}[r.Intn(4)]))
 				}
 				nBefore := len(w.App.PerpetualKeeper.GetAllMTPs(w.Ctx()))
 				res := tx(o, &perptypes.MsgOpen{Creator: o.Addr.String(), Position: pos, Leverage: D(lev), TradingAsset: "uatom", Collateral: sdk.NewCoin("uusdc", h.amt(10_000_000, 2_000_000_000)),
